@@ -246,6 +246,9 @@ func GenC19(seed uint64, idx int) *Scenario {
 			if !huge && r.Intn(4) == 0 {
 				tn = c19Types[r.Intn(len(c19Types))]
 			}
+			if r.Intn(40) == 0 {
+				ops = append(ops, Op{Kind: "gc"})
+			}
 			switch k := r.Intn(10); {
 			case k < 6:
 				var op Op
@@ -424,7 +427,7 @@ func GenC11(seed uint64, idx int) *Scenario {
 // ---------------------------------------------------------------------------
 // C10
 
-var c10Types = []string{"MTarget", "MTarget", "MTarget", "MNamed", "Ptrs", "Zeros", "Wide", "Wide", "Maps", "MapKS", "MapKV", "Node", "Sym", "V2", "JDoc", "[]int", "[]string", "Tree", "Nest", "NestD", "[][]int", "map[string][]int", "IDs", "Tags", "[]null.Int", "JArr", "JNest", "[]any"}
+var c10Types = []string{"MTarget", "MTarget", "MTarget", "MNamed", "Ptrs", "Zeros", "Sparse", "SparseNew", "Wide", "Wide", "Maps", "MapKS", "MapKV", "Node", "Sym", "V2", "JDoc", "[]int", "[]string", "Tree", "Nest", "NestD", "[][]int", "map[string][]int", "IDs", "Tags", "[]null.Int", "JArr", "JNest", "[]any"}
 
 func GenC10(seed uint64, idx int) *Scenario {
 	r := engine.PRNG{S: engine.Mix(seed, 0xC10, uint64(idx))}
@@ -457,6 +460,9 @@ func GenC10(seed uint64, idx int) *Scenario {
 		tries := 0
 		for len(ops) < nops && tries < maxTries {
 			tries++
+			if r.Intn(40) == 0 {
+				ops = append(ops, Op{Kind: "gc"})
+			}
 			tn := mainType
 			if !long && r.Intn(5) == 0 {
 				tn = c10Types[r.Intn(len(c10Types))]
